@@ -382,9 +382,37 @@ class LifeWorld:
                     return int(b.column(0)[0].as_py())
         return -1
 
+    def _raw_run(self, script: str) -> str:
+        """The view's token without the opt-in header, response headers ignored (a non-tracking client)."""
+        tok = self.view.current_session_token()
+        schema = self.server.methods["run"].params_schema
+        body = world.raw_request(b"run", schema, {"script": script})
+        h = {"Content-Type": world.ARROW_CT}
+        if tok is not None:
+            h["VGI-Session"] = tok
+        r = self.raw.simulate_post("/run", body=body, headers=h)
+        for s_ in world.read_streams(r.content):
+            e = world.error_of(s_)
+            if e:
+                t, m = e.get("type"), e.get("message") or ""
+                if t == "ServerDrainingError":
+                    return "server_draining"
+                if t == "SessionLostError":
+                    return "session_lost"
+                if t == "LookupError":
+                    return "no_session"
+                if "opt in" in m:
+                    return "no_optin"
+                if "already active" in m:
+                    return "already_bound"
+                return f"other:{t}"
+        return "ok"
+
     def request(self, script: str, via: str) -> str:
         from vgi_rpc.rpc import RpcError
 
+        if via == "tokenonly":
+            return self._raw_run(script)
         target = self.view if via == "view" else self.conn
         try:
             target.run(script=script)
